@@ -633,3 +633,140 @@ Fixpoint state_after (st : state) (l : list event) : state :=
 
 (* the state after a list of additions *)
 Definition reach (l : list addargs) : state := add_all empty_state l.
+
+(* ------------------------------------------------------------------------------------------ waiting clients
+   State.WaitNotices, logical half. A call returns at once when Notices(filter) is not empty; otherwise it blocks on
+   noticeCond. Every Broadcast (AddNotice with newOrRepeated = true; the context of some waiter being done) makes every
+   blocked call re-evaluate Notices(filter) (after looking at its own ctx.Err()). That sync.Cond.Broadcast really wakes
+   the goroutines is Go runtime behaviour: modelled by `recheck`, not verified. *)
+Inductive wevent :=
+| WAdd (a : addargs)                 (* State.AddNotice *)
+| WWait (id : N) (f : nfilter)       (* call number id of State.WaitNotices with this filter (After included) *)
+| WTimeout (id : N)                  (* the context of call id is done (timeout / cancellation) *)
+| WRestart.                          (* snapd restarts: blocked requests die with the process *)
+
+Inductive wout :=
+| WReturned (id : N) (f : nfilter) (l : list notice)    (* call id returned this list *)
+| WCancelled (id : N).                                  (* call id returned ctx.Err() *)
+
+Record wsys := mkW { w_state : state; w_blocked : list (N * nfilter) }.
+
+Definition empty_wsys : wsys := mkW empty_state [].
+
+(* every blocked call re-evaluates its condition *)
+Fixpoint recheck (st : state) (bl : list (N * nfilter)) : list wout * list (N * nfilter) :=
+  match bl with
+  | [] => ([], [])
+  | (id, f) :: r =>
+      let '(o, b) := recheck st r in
+      if wait_enabled st f then (WReturned id f (notices st f) :: o, b) else (o, (id, f) :: b)
+  end.
+
+Definition is_blocked (id : N) (bl : list (N * nfilter)) : bool := existsb (fun w => N.eqb (fst w) id) bl.
+
+Definition wstep (s : wsys) (e : wevent) : list wout * wsys :=
+  match e with
+  | WAdd a =>
+      match add_notice (w_state s) a with
+      | None => ([], s)
+      | Some (st', flag, _) =>
+          if flag then let '(o, b) := recheck st' (w_blocked s) in (o, mkW st' b)     (* noticeCond.Broadcast() *)
+          else ([], mkW st' (w_blocked s))
+      end
+  | WWait id f =>
+      if wait_enabled (w_state s) f then ([WReturned id f (notices (w_state s) f)], s)
+      else ([], mkW (w_state s) (List.app (w_blocked s) [(id, f)]))
+  | WTimeout id =>
+      if is_blocked id (w_blocked s) then
+        (* contextAfterFunc: Broadcast; the call whose context is done returns its error, the others re-check *)
+        let rest := List.filter (fun w => negb (N.eqb (fst w) id)) (w_blocked s) in
+        let '(o, b) := recheck (w_state s) rest in (WCancelled id :: o, mkW (w_state s) b)
+      else ([], s)
+  | WRestart => ([], mkW (restart (w_state s)) [])
+  end.
+
+Fixpoint wrun (s : wsys) (evs : list wevent) : list wout * wsys :=
+  match evs with
+  | [] => ([], s)
+  | e :: r => let '(o1, s1) := wstep s e in let '(o2, s2) := wrun s1 r in (List.app o1 o2, s2)
+  end.
+
+Definition wev_server_clock (e : wevent) : bool :=
+  match e with WAdd a => match a_time a with None => true | Some _ => false end | _ => true end.
+
+(* ---- correspondence for the waiting clients (driver zzverif/c08/wait: real goroutines blocked in State.WaitNotices) *)
+
+(* what was observed of one call during one step: kind 0 = returned the list, 1 = returned the context's error,
+   2 = should have returned (the real Notices(filter) was non-empty after the step) but did not within the time limit *)
+Inductive wobs := WO (id : N) (kind : N) (l : list onotice).
+
+(* per step: the calls that returned during it, and the calls still blocked after it, each with the number of notices the
+   real State.Notices(filter) reports for it at that moment *)
+Inductive wcase := WCase (evs : list wevent) (steps : list (list wobs * list (N * N))).
+
+Fixpoint wsteps (s : wsys) (evs : list wevent) : list (list wout * list (N * nfilter)) :=
+  match evs with
+  | [] => []
+  | e :: r => let '(o, s') := wstep s e in (o, w_blocked s') :: wsteps s' r
+  end.
+
+Fixpoint wins (x : wobs) (l : list wobs) : list wobs :=
+  match l with
+  | [] => [x]
+  | y :: r => if (match x, y with WO a _ _, WO b _ _ => a <=? b end)%N then x :: l else y :: wins x r
+  end.
+Definition wsort (l : list wobs) : list wobs := fold_right wins [] l.
+
+Definition wout_obs (o : wout) : wobs :=
+  match o with
+  | WReturned id _ l => WO id 0%N (map project l)
+  | WCancelled id => WO id 1%N []
+  end.
+
+Definition wobs_eqb (a b : wobs) : bool :=
+  match a, b with WO i k l, WO j k' l' => N.eqb i j && N.eqb k k' && list_eqb onotice_eqb l l' end.
+
+Fixpoint nins (x : N) (l : list N) : list N :=
+  match l with [] => [x] | y :: r => if (x <=? y)%N then x :: l else y :: nins x r end.
+Definition nsort (l : list N) : list N := fold_right nins [] l.
+
+Fixpoint list_eqb2 {A B} (e : A -> B -> bool) (a : list A) (b : list B) : bool :=
+  match a, b with
+  | [], [] => true
+  | x :: a', y :: b' => e x y && list_eqb2 e a' b'
+  | _, _ => false
+  end.
+
+Definition wmismatch (c : wcase) : bool :=
+  match c with
+  | WCase evs steps =>
+      negb (list_eqb2 (fun m o =>
+                        list_eqb wobs_eqb (wsort (map wout_obs (fst m))) (wsort (fst o)) &&
+                        list_eqb N.eqb (nsort (map fst (snd m))) (nsort (map fst (snd o))))
+                     (wsteps empty_wsys evs) steps)
+  end.
+
+(* the waiter clause on the observed behaviour: nobody stuck; what is returned is non-empty, matches the call's filter and
+   is ordered; nobody stays blocked while the real Notices(filter) is non-empty *)
+Definition omatches (f : nfilter) (o : onotice) : bool :=
+  ostatic_match f o && match f_after f with None => true | Some a => o_lr o >? a end.
+
+Definition wfilter_of (evs : list wevent) (id : N) : nfilter :=
+  match find (fun e => match e with WWait i _ => N.eqb i id | _ => false end) evs with
+  | Some (WWait _ f) => f
+  | _ => no_filter
+  end.
+
+Definition wmonitor_fail (c : wcase) : bool :=
+  match c with
+  | WCase evs steps =>
+      forallb wev_server_clock evs &&
+      negb (forallb (fun st =>
+              forallb (fun o => match o with
+                                | WO id 0%N l => negb (is_nil_b l) && forallb (omatches (wfilter_of evs id)) l &&
+                                                 strictly_increasing (map o_lr l)
+                                | WO _ 1%N _ => true
+                                | WO _ _ _ => false
+                                end) (fst st) &&
+              forallb (fun b => N.eqb (snd b) 0%N) (snd st)) steps)
+  end.
